@@ -384,10 +384,10 @@ def f_xrel():
 def f_consten():
     """call sites switched off by a constant-false enable_call (an Amaranth Const, e.g. an elaboration-time flag), next to
     live calls of the same method from the same and from another transaction; 1-bit arguments"""
-    for nx in (False, True):
+    for nx, c0arg in itertools.product((False, True), (1, 0)):
         m0 = M("M0", nx=nx, i=1, o="notarg")
         m1 = M("M1", i=1, o="notarg")
-        c0 = call("M0", en="0", arg=1)
+        c0 = call("M0", en="0", arg=c0arg)      # both argument values: a leaked call must change what the combiner returns
         live = call("M0", arg="in")
         b0s = [[c0], [c0, call("M1", arg="in")], [If([c0])], [If([c0], [live], has_else=True)], [call("M1", arg=0), c0],
                [Sw(1, [(0, [c0]), (1, [live])])]]
